@@ -700,6 +700,97 @@ pub fn main(args: &[String]) -> i32 {
                 }
             }
         }
+        // two directed shapes on real nodes with instant delivery (same ReplTrace rule as `cluster`: every node answers alike):
+        // keep-alive - the same SET .. PX written again before it runs out, read between the two deadlines;
+        // lagging - a node that has been idle receives only the newest state of a key from a node 70 000 writes ahead, then writes it
+        Some("shapes") => {
+            use redis_sim::production::ReplicatedShardedState;
+            use redis_sim::replication::gossip::GossipMessage;
+            use redis_sim::replication::ReplicationConfig;
+            let rt = tokio::runtime::Builder::new_current_thread().enable_all().build().unwrap();
+            let mut run = 0;
+            let ship = |from: &ReplicatedShardedState<HarnessTime>, to: &[&ReplicatedShardedState<HarnessTime>], only_last: bool| {
+                if let Some(gs) = from.get_gossip_state() {
+                    let mut out = gs.write().drain_outbound();
+                    if only_last && out.len() > 1 {
+                        out = out.split_off(out.len() - 1);
+                    }
+                    for m in out {
+                        let js = serde_json::to_string(&m.message).unwrap_or_default();
+                        for t in to {
+                            if let Ok(mm) = serde_json::from_str::<GossipMessage>(&js) {
+                                t.apply_remote_deltas(mm.into_deltas().unwrap_or_default());
+                            }
+                        }
+                    }
+                }
+            };
+            for (opt, ttl, second_same, gap) in [("PX", 1000u64, true, 600u64), ("PX", 1000, false, 600), ("EX", 1, true, 700), ("PX", 300, true, 299), ("PX", 1000, true, 999), ("PX", 50, true, 10)] {
+                run += 1;
+                let ev = rt.block_on(async {
+                    let clock = Arc::new(Mutex::new(1_000_000u64));
+                    let mk = |i: u64| ReplicatedShardedState::with_time_source(ReplicationConfig { replica_id: i, enabled: true, ..Default::default() }, HarnessTime(clock.clone()));
+                    let (na, nb) = (mk(1), mk(2));
+                    let ttl_ms = if opt == "EX" { ttl * 1000 } else { ttl };
+                    let first = vec!["SET".to_string(), "ka".into(), "v".into(), opt.into(), ttl.to_string()];
+                    let second = if second_same { first.clone() } else { vec!["SET".to_string(), "ka".into(), "v2".into(), opt.into(), ttl.to_string()] };
+                    let mut script = Vec::new();
+                    for (i, argv) in [&first, &second].iter().enumerate() {
+                        let av: Vec<&str> = argv.iter().map(|s| s.as_str()).collect();
+                        let _ = na.execute(argv_cmd(&av)).await;
+                        ship(&na, &[&nb], false);
+                        script.push(json!({"n": 1, "argv": argv, "at": *clock.lock().unwrap()}));
+                        if i == 0 {
+                            *clock.lock().unwrap() += gap;
+                            let _ = na.evict_expired_all_shards().await;
+                            let _ = nb.evict_expired_all_shards().await;
+                        }
+                    }
+                    // between the first deadline and the second
+                    *clock.lock().unwrap() += ttl_ms - gap + (gap / 2).max(1);
+                    let _ = na.evict_expired_all_shards().await;
+                    let _ = nb.evict_expired_all_shards().await;
+                    let mut views = Vec::new();
+                    for n in [&na, &nb] {
+                        let v = vec![format!("{:?}", n.execute(argv_cmd(&["GET", "ka"])).await), format!("{:?}", n.execute(argv_cmd(&["EXISTS", "ka"])).await)];
+                        views.push(json!({"reads": v, "rs": []}));
+                    }
+                    json!({"a": "cluster", "nn": 2, "shape": "keepalive", "script": script, "views": views})
+                });
+                out.emit(&json!({"a": "reset", "run": run, "n": 2}));
+                let mut ev = ev;
+                ev["run"] = json!(run);
+                out.emit(&ev);
+            }
+            for ahead in [70_000usize, 3000] {
+                run += 1;
+                let ev = rt.block_on(async {
+                    let clock = Arc::new(Mutex::new(1_000_000u64));
+                    let mk = |i: u64| ReplicatedShardedState::with_time_source(ReplicationConfig { replica_id: i, enabled: true, ..Default::default() }, HarnessTime(clock.clone()));
+                    let (na, nb) = (mk(1), mk(2));
+                    for i in 0..ahead {
+                        let _ = na.execute(argv_cmd(&["SET", "lag", &format!("a-{i}")])).await;
+                        if i % 1000 == 999 && i + 1 < ahead {
+                            if let Some(gs) = na.get_gossip_state() { let _ = gs.write().drain_outbound(); }   // lost on the way
+                        }
+                    }
+                    ship(&na, &[&nb], true);           // only the newest state arrives
+                    let _ = nb.execute(argv_cmd(&["SET", "lag", "from-b"])).await;
+                    ship(&nb, &[&na], false);
+                    let mut views = Vec::new();
+                    for n in [&na, &nb] {
+                        let v = vec![format!("{:?}", n.execute(argv_cmd(&["GET", "lag"])).await)];
+                        let snap: std::collections::BTreeMap<String, redis_sim::replication::state::ReplicatedValue> = n.snapshot_state().await.into_iter().filter(|(k, _)| k == "lag").collect();
+                        views.push(json!({"reads": v, "rs": snap.iter().map(|(k, x)| json!([k, crate::crdt::obs(x)])).collect::<Vec<_>>()}));
+                    }
+                    json!({"a": "cluster", "nn": 2, "shape": "lagging", "ahead": ahead, "script": [], "views": views})
+                });
+                out.emit(&json!({"a": "reset", "run": run, "n": 2}));
+                let mut ev = ev;
+                ev["run"] = json!(run);
+                out.emit(&ev);
+            }
+        }
         Some("record") => {
             let mut rng = rng(a.u64("seed", 1));
             let reg = ["set", "setnx", "setxx", "getset", "del", "incr", "append"];
